@@ -23,7 +23,8 @@ from asl.flow import find_path, pretty_path
 from asl.loader import AnalysisError, norm, own_nodes
 from . import c07
 from .lru import enumerate_paths
-from .common import real_units
+from .common import Relabel, real_units
+from . import c05
 
 LEVEL = {
     "decided": "C08: (R08.1) the scoped handle's aclose is a no-op and the handle inherits the borrowing guarantees of "
@@ -63,6 +64,11 @@ def run(ctx) -> None:
     c05.r05_5(Relabel(ctx, "R08.5"))
     c01._lockstep_order(Relabel(ctx, "R08.5"))
     r08_6(ctx)
+    from . import tooltables
+    ctx.rule("R08.7", "tools leave a shared iterator where the stdlib tool would leave it: items taken per source in the tool tables (R05.11, shared)")
+    tooltables.tool_tables(Relabel(ctx, "R08.7"), "R08.7", ("yields", "items taken", "end"))
+    ctx.rule("R08.8", "merge takes the next head of a source only after it has yielded the current one (R05.3, shared)")
+    c05.r05_3(Relabel(ctx, "R08.8"))
 
 
 def _field_writes(unit, fld: str):
